@@ -106,13 +106,16 @@ def rule_bp(ctx, M, cname, futname, rule):
             probs.append("the back-pressure loop does not await group.next() before re-testing the limit")
         # what is pushed
         p = pushes[0].arg(1)
-        okp = p is not None and p[0] == "call" and p[1] == (futname, "new") and len(p[2]) >= 3
+        sv = flow.struct_view(M, p, futname)
+        okp = sv is not None
         if okp:
-            f, item, cnt = p[2][0], p[2][1], p[2][2]
-            okp = f[0] == "call" and f[1][1] == "clone" and f[2][0] == cfield("f") and item == cupvar(1) and \
-                cnt[0] == "call" and cnt[1][1] == "clone" and cnt[2][0] == cfield("count")
+            f, item, cnt = sv.get("f"), sv.get("fut_t"), sv.get("count")
+            okp = f is not None and f[0] == "call" and f[1][1] == "clone" and f[2][0] == cfield("f") and \
+                item == ("agg", ("Option", "Some"), (cupvar(1),)) and \
+                cnt is not None and cnt[0] == "call" and cnt[1][1] == "clone" and cnt[2][0] == cfield("count") and \
+                sv.get("done") == ("const", 0) and sv.get("fut_b") == ("agg", ("Option", "None"), ())
         if not okp:
-            probs.append("the pushed future is not %s::new(f.clone(), <the given item future>, count.clone())" % futname)
+            probs.append("the pushed future is not a fresh %s { f: f.clone(), fut_t: Some(<the given item future>), count: count.clone(), done: false, fut_b: None }" % futname)
         rets = flow.returned_values(bi)
         if not all(r[1] == "Continue" for r in rets):
             pass
